@@ -926,4 +926,32 @@ theorem expandSequence_quiet (T : Tables) (hT : QuietTables T) (fuel flags : Nat
   · exact absurd h (by simp)
   · exact absurd h (by simp)
 
+/-! ### the dataset-building side -/
+
+theorem createDatasubsetB_quiet (T : Tables) (hT : QuietTables T) (fuel : Nat) (t : Template)
+    (ht : ∀ n ∈ t.gabarit, quietNode n = true) : createDatasubsetB T fuel t = createDatasubset T fuel t := by
+  unfold createDatasubsetB createDatasubset
+  have key : ∀ ns, (∀ x ∈ ns, quietNode x = true) →
+      (let (ns', _, _, err) := applyTablesAllB T t.edition { enforce := .strict } {} [] ns
+       if afAbort ns' then (.error .abort : Except XErr (Subset × Bool)) else .ok ({ nodes := mkvalAll ns' }, err)) =
+      (let (ns', _, err) := applyTablesAll T t.edition { enforce := .strict } ns
+       if afAbort ns' then .error .abort else .ok ({ nodes := mkvalAll ns' }, err)) := by
+    intro ns hq
+    rw [(applyTablesAllB_quiet T t.edition ns { enforce := .strict } [] (quietDDO_fresh .strict) hq).1]
+  split
+  · cases hx : expandSequence T fuel (OP_EXPAND_DELAY_REPL ||| OP_ZDRC_SKIP) t.gabarit with
+    | error e => rfl
+    | ok ns => exact key ns (expandSequence_quiet T hT fuel _ t.gabarit ns ht hx)
+  · exact key t.gabarit ht
+
+theorem expandDatasubsetB_quiet (T : Tables) (hT : QuietTables T) (fuel : Nat) (t : Template) (s : Subset)
+    (hs : ∀ n ∈ s.nodes, quietNode n = true) : expandDatasubsetB T fuel t s = expandDatasubset T fuel t s := by
+  unfold expandDatasubsetB expandDatasubset
+  cases hx : expandSequence T fuel (OP_EXPAND_DELAY_REPL ||| OP_ZDRC_SKIP) s.nodes with
+  | error e => rfl
+  | ok ns =>
+    have hq := expandSequence_quiet T hT fuel _ s.nodes ns hs hx
+    simp only []
+    rw [(applyTablesAllB_quiet T t.edition ns { enforce := .strict } [] (quietDDO_fresh .strict) hq).1]
+
 end Bufr
